@@ -41,6 +41,10 @@ THE SOFTWARE.
 #include <amgcl/util.hpp>
 
 /// Primary namespace.
+#ifdef AMGCL_VERIF
+namespace amgcl_verif { struct access; }
+#endif
+
 namespace amgcl {
 
 /// Algebraic multigrid method.
@@ -554,6 +558,10 @@ class amg {
 
     template <class B, template <class> class C, template <class> class R>
     friend std::ostream& operator<<(std::ostream &os, const amg<B, C, R> &a);
+
+#ifdef AMGCL_VERIF
+    friend struct ::amgcl_verif::access;
+#endif
 };
 
 /// Sends information about the AMG hierarchy to output stream.
